@@ -200,6 +200,152 @@ pub fn check_case(case: &Case) -> CaseResult {
         }))
 }
 
+/// A reader interleaved with a writer that keeps committing inside the reader's
+/// read windows (the writers-first cases above can never invalidate a read).
+#[derive(Clone, Debug, PartialEq, Eq, Hash, Serialize, Deserialize)]
+pub struct StarveCase {
+    pub writer: Vec<Op>,
+    /// The reader's operations (snapshot or sequence).
+    pub reader: Vec<Op>,
+    /// Alternating segments: the reader runs `1 + r` scheduled points, then the writer `1 + w`.
+    pub segments: Vec<(u8, u8)>,
+    /// The writer is frozen for good after this many of its hooked steps (None: never).
+    pub freeze_writer_after: Option<u16>,
+}
+
+pub fn check_starve(case: &StarveCase) -> CaseResult {
+    const WRITER: usize = 0;
+    const READER: usize = 1;
+    let mut schedule = vec![];
+    for (r, w) in &case.segments {
+        // runnable = [writer, reader] while both are ready: 255 picks the reader, 0 the writer.
+        schedule.push((255u8, *r));
+        schedule.push((0u8, *w));
+    }
+    // Once the schedule is exhausted the scheduler would run the writer to completion
+    // first; let the reader finish first instead (the writer may be frozen).
+    for _ in 0..40 {
+        schedule.push((255u8, 255u8));
+    }
+    let run = abt::run(
+        Plan {
+            programs: vec![case.writer.clone(), case.reader.clone()],
+            schedule,
+            reads: vec![],
+            budgets: vec![case.freeze_writer_after.map(|k| k as usize), None],
+            solo: Some(READER),
+        },
+        Target::Fresh,
+    );
+    let desc = format!(
+        "reader {:?} interleaved with {} writer operations (segments {:?}, writer frozen after {:?} steps)",
+        case.reader,
+        case.writer.len(),
+        case.segments,
+        case.freeze_writer_after
+    );
+    if run.livelock {
+        return Err(Fail::new("reader-unbounded", format!("{desc}: a thread took more than {} hooked steps", abt::STEP_LIMIT)));
+    }
+    if run.solo_blocked {
+        return Err(Fail::new("waits-for-writer", format!("{desc}: the reader blocked and could only finish once the writer ran again")));
+    }
+    if let Some(OpResult::Panicked(msg)) = run.results[READER].iter().find(|r| matches!(r, OpResult::Panicked(_))) {
+        return Err(Fail::new("panic", format!("{desc}: panicked: {msg}")));
+    }
+    if run.lock_calls[READER] + run.try_lock_calls[READER] != 0 {
+        return Err(Fail::new(
+            "reader-takes-lock",
+            format!("{desc}: the reader performed {} lock and {} try_lock operations", run.lock_calls[READER], run.try_lock_calls[READER]),
+        ));
+    }
+    // Per reader operation: loads against commits that landed between its begin and end.
+    let mut max_invalidated = 0usize;
+    let mut writer_locked_at_some_read = false;
+    for (i, op) in case.reader.iter().enumerate() {
+        let b = run.trace.iter().position(|e| matches!(e, Event::OpBegin { tid, op, .. } if *tid == READER && *op == i));
+        let e = run.trace.iter().position(|e| matches!(e, Event::OpEnd { tid, op } if *tid == READER && *op == i));
+        let (Some(b), Some(e)) = (b, e) else {
+            return Err(Fail::new("harness:no-reader-run", format!("{desc}: reader operation {i} did not run")));
+        };
+        let window = &run.trace[b..e];
+        let loads = window.iter().filter(|ev| matches!(ev, Event::Load { tid, .. } if *tid == READER)).count();
+        let commits = window.iter().filter(|ev| matches!(ev, Event::Store { tid, addr, .. } if *tid == WRITER && Some(*addr) == run.seq_addr)).count();
+        let mut owner = false;
+        for ev in &run.trace[..e] {
+            match ev {
+                Event::Lock { tid, .. } | Event::TryLock { tid, ok: true, .. } if *tid == WRITER => owner = true,
+                Event::Unlock { tid, .. } if *tid == WRITER => owner = false,
+                Event::Load { tid, .. } if *tid == READER && owner => writer_locked_at_some_read = true,
+                _ => {}
+            }
+        }
+        let (exact, per_retry) = if *op == Op::Sequence { (1, 0) } else { (4, 4) };
+        if commits == 0 && loads != exact {
+            return Err(Fail::new("reader-retries", format!("{desc}: operation {i} took {loads} atomic loads although no write completed during it (expected {exact})")));
+        }
+        if loads > exact + per_retry * commits {
+            return Err(Fail::new("reader-unbounded", format!("{desc}: operation {i} took {loads} atomic loads with {commits} writes completed during it")));
+        }
+        if *op == Op::Snapshot && loads > 4 {
+            // Retries reuse the validating load: 3 more loads each.
+            max_invalidated = max_invalidated.max((loads - 4 + 2) / 3);
+        }
+        if let Some(OpResult::Snapshot { base, voucher }) = run.results[READER].get(i) {
+            if *voucher != voucher_bits(VOUCH.vouch(*base)) {
+                return Err(Fail::new("torn-snapshot", format!("{desc}: operation {i} returned ({base}, {voucher:#x})")));
+            }
+        }
+    }
+    let bucket = match max_invalidated {
+        0 => "invalidated_reads:0",
+        1..=3 => "invalidated_reads:1-3",
+        4..=7 => "invalidated_reads:4-7",
+        8..=15 => "invalidated_reads:8-15",
+        _ => "invalidated_reads:16+",
+    };
+    Ok(Outcome::new(max_invalidated >= 1)
+        .label(bucket)
+        .label_if(writer_locked_at_some_read, "read_while_writer_holds_lock")
+        .label_if(case.freeze_writer_after.is_some(), "writer_frozen"))
+}
+
+fn starve_strategy() -> impl Strategy<Value = StarveCase> {
+    // Writers whose updates all commit (older values are skipped without a commit).
+    let ascending = |len: std::ops::Range<usize>| {
+        proptest::collection::vec((0u64..2, prop_oneof![5 => Just(false), 1 => Just(true)]), len).prop_map(|v| {
+            let mut t = 0;
+            v.into_iter()
+                .map(|(d, is_try)| {
+                    t += d;
+                    if is_try {
+                        Op::TryUpdate(t)
+                    } else {
+                        Op::Update(t)
+                    }
+                })
+                .collect::<Vec<Op>>()
+        })
+    };
+    let reader = prop_oneof![3 => Just(vec![Op::Snapshot]), 1 => Just(vec![Op::Snapshot, Op::Snapshot]), 1 => Just(vec![Op::Sequence, Op::Snapshot])];
+    prop_oneof![
+        // One whole committing update (begin + 8 steps) per writer segment and at most one
+        // read attempt per reader segment: every attempt is invalidated until the writer is done or frozen.
+        3 => (ascending(1..34), reader.clone(), proptest::collection::vec(0u8..3, 36), 0u8..4, proptest::option::weighted(0.6, (0u16..34, 0u16..9))).prop_map(
+            |(writer, reader, rs, lead, freeze)| StarveCase {
+                segments: rs.into_iter().enumerate().map(|(i, r)| (r, if i == 0 { 8 + lead } else { 8 })).collect(),
+                freeze_writer_after: freeze.map(|(k, j)| k.min(writer.len() as u16) * 8 + j),
+                writer,
+                reader,
+            }
+        ),
+        1 => (ascending(1..24), reader.clone(), proptest::collection::vec((0u8..3, 6u8..12), 0..24), proptest::option::weighted(0.5, 0u16..200))
+            .prop_map(|(writer, reader, segments, freeze_writer_after)| StarveCase { writer, reader, segments, freeze_writer_after }),
+        1 => (proptest::collection::vec(writer_op(), 1..24), reader, proptest::collection::vec((0u8..6, 0u8..20), 0..24), proptest::option::weighted(0.5, 0u16..200))
+            .prop_map(|(writer, reader, segments, freeze_writer_after)| StarveCase { writer, reader, segments, freeze_writer_after }),
+    ]
+}
+
 fn writer_op() -> impl Strategy<Value = Op> {
     prop_oneof![3 => (1u64..7).prop_map(Op::Update), 1 => (1u64..7).prop_map(Op::TryUpdate)]
 }
@@ -269,19 +415,24 @@ pub fn run(ctx: &Ctx, rep: &mut Report) {
     engine::enumerate(ctx, rep, "nfs-unlocked", nfs_cases().into_iter(), check_case);
     let cases = ctx.share(ctx.tier.pick(60_000, 1_500_000));
     engine::drive(ctx, rep, "random", case_strategy(), cases, check_case);
+    let cases = ctx.share(ctx.tier.pick(16_000, 400_000));
+    engine::drive(ctx, rep, "starved-reader", starve_strategy(), cases, check_starve);
 }
 
-fn replay(_ctx: &Ctx, _group: &str, case: &Value) -> CaseResult {
+fn replay(_ctx: &Ctx, group: &str, case: &Value) -> CaseResult {
+    if group == "starved-reader" {
+        return check_starve(&parse_case::<StarveCase>(case)?);
+    }
     check_case(&parse_case::<Case>(case)?)
 }
 
 pub fn def() -> PropDef {
     PropDef {
         id: "C18",
-        rule: "Same hook and scheduler as C13. A case is (one or two writer programs of update / try_update operations, a suspension point for each writer = the number of its hooked steps - lock, try_lock, every atomic load and store, unlock - after which it is never scheduled again, a solo caller: snapshot, sequence, try_update(t) or nfs_voucher::get_base_time_unlocked, and reads-from choices). The writers run up to their suspension points, then the solo caller is the only thread the scheduler will run; the scheduler reports if it blocks (it is then resumed together with the writers so that the case ends cleanly). Oracles: the solo caller finishes while the writers stay suspended; snapshot / sequence / get_base_time_unlocked perform no lock or try_lock operation; with latest-only reads a snapshot takes exactly four atomic loads (no write completes during a solo run, so there is nothing to retry for) and with generated stale reads at most 4*(1+commits); try_update performs exactly one try_lock and no lock, and returns false whenever a suspended writer holds the lock. every-suspension-point enumerates all suspension points of one writer doing two updates (0..17 steps) and of two writers (0..9 steps each) for four solo callers; nfs-unlocked suspends an observe_file_time call on a trusted file inside the process-wide cell at every step and runs get_base_time_unlocked alone. Non-trivial: a writer is suspended while holding the lock with its slot half written. Distinct: hash of the serialised case / by enumeration.",
+        rule: "Same hook and scheduler as C13. A case is (one or two writer programs of update / try_update operations, a suspension point for each writer = the number of its hooked steps - lock, try_lock, every atomic load and store, unlock - after which it is never scheduled again, a solo caller: snapshot, sequence, try_update(t) or nfs_voucher::get_base_time_unlocked, and reads-from choices). The writers run up to their suspension points, then the solo caller is the only thread the scheduler will run; the scheduler reports if it blocks (it is then resumed together with the writers so that the case ends cleanly). Oracles: the solo caller finishes while the writers stay suspended; snapshot / sequence / get_base_time_unlocked perform no lock or try_lock operation; with latest-only reads a snapshot takes exactly four atomic loads (no write completes during a solo run, so there is nothing to retry for) and with generated stale reads at most 4*(1+commits); try_update performs exactly one try_lock and no lock, and returns false whenever a suspended writer holds the lock. every-suspension-point enumerates all suspension points of one writer doing two updates (0..17 steps) and of two writers (0..9 steps each) for four solo callers; nfs-unlocked suspends an observe_file_time call on a trusted file inside the process-wide cell at every step and runs get_base_time_unlocked alone. starved-reader: a reader (snapshot, two snapshots, or sequence then snapshot) is interleaved with one writer doing up to 33 updates whose values never decrease (so every one commits); in three cases out of five the schedule alternates at most one read attempt with exactly one whole update, so that every read attempt is invalidated (the evidence labels count 0, 1-3, 4-7, 8-15, 16+ consecutive invalidated attempts), and the writer may be frozen for good after any number of its steps; oracles: the reader performs no lock / try_lock, is never blocked, takes exactly 4 loads when no commit landed inside the operation and at most 4 + 4*commits otherwise, and returns a vouched pair. Non-trivial: a writer is suspended while holding the lock with its slot half written; (starved-reader) at least one read attempt was invalidated. Distinct: hash of the serialised case / by enumeration.",
         assumptions: &["liveness is checked as 'terminates within a step budget while every peer is frozen', which is what the statement asks", "hook: vouched_time/verif-hooks"],
         exhaustive_note: Some("every-suspension-point and nfs-unlocked: complete enumerations of suspension points"),
-        shards: |t: Tier| t.pick(8, 16),
+        shards: |_t: Tier| 16,
         run,
         replay,
     }
